@@ -189,4 +189,9 @@ example : ∃ src', readerDecNext ⟨[8, 11, 0,0,0,1, 0,0,0,7, 0,0,0,1, 65] ++ [
 example : readerDecNext ⟨[0,0,0,1, 65], [⟨4, none⟩, ⟨1, some .eof⟩]⟩ TT.STRING
     = .ok ([0,0,0,1, 65], ⟨[], []⟩) := by decide
 
+/-- BytesSkipDecoder.Next starts from a clean offset whatever an earlier call left behind (the F16 fix):
+    a Next that failed part-way consumes nothing and leaks nothing into the next call -/
+theorem bytesDec_offset_irrelevant (b : Bytes) (n : Nat) (t : UInt8) :
+    bytesDecNext ⟨b, n⟩ t = bytesDecNext ⟨b, 0⟩ t := rfl
+
 end Verif.C02
